@@ -22,7 +22,7 @@ def main():
     summary = {}
     for sid in ids:
         d = VERIF / "seeded" / sid
-        prop = sid.split("-")[0]
+        prop = sid.split("-")[0][:3]
         rc, o = sh(f"git -C /repo apply {d / 'patch.diff'}")
         if rc != 0:
             print(f"{sid}: patch no longer applies: {o.strip()[:200]}")
